@@ -243,6 +243,7 @@ func runC13(args []string) int {
 				}
 				desc := c13Desc{Kind: "rangecheck", Mode: mode, Widths: widths, Values: vals}
 				rep.Eval(fmt.Sprint("rc|", mode, widths, vals), true)
+				rep.Sample(desc)
 				for _, p := range pats {
 					rep.Count("rc-value:" + p)
 				}
